@@ -11,10 +11,13 @@ import copy
 
 
 def defer_nesting(tree):
-    """label -> labels of @defer fragments that statically enclose it on every route (named fragments
-    can be spread in several places)."""
+    """label -> {enclosing label: set of relative response-key paths}: the labelled @defer fragments that
+    statically enclose the fragment on *every* route (named fragments can be spread in several places),
+    each with the response keys between the enclosing fragment's position and the nested one's, on any
+    route.  An instance at path P is nested in an instance of the enclosing label at path Q only if
+    P = Q + one of these key paths (list indices dropped)."""
     frags = {d["n"]: d for d in tree["defs"] if d["k"] == "frag"}
-    routes = {}  # label -> list of sets of enclosing labels, one per static route to the fragment
+    routes = {}  # label -> list of {enclosing label: relative key path}, one per static route
 
     def label_of(dirs):
         for d in dirs or []:
@@ -24,33 +27,34 @@ def defer_nesting(tree):
                         return v["v"]
         return None
 
-    def walk(sel, stack, seen):
+    def enter(lab, stack, keys):
+        routes.setdefault(lab, []).append({e: tuple(keys[len(k):]) for e, k in stack})
+        return stack + [(lab, list(keys))]
+
+    def walk(sel, stack, keys, seen):
         for s in sel:
             if s["k"] == "field":
                 if s["sel"]:
-                    walk(s["sel"], stack, seen)
+                    walk(s["sel"], stack, keys + [s["alias"] or s["n"]], seen)
             elif s["k"] == "inline":
                 lab = label_of(s["dirs"])
-                st = stack
-                if lab is not None:
-                    routes.setdefault(lab, []).append(set(stack))
-                    st = stack + [lab]
-                walk(s["sel"], st, seen)
+                walk(s["sel"], enter(lab, stack, keys) if lab is not None else stack, keys, seen)
             else:
                 lab = label_of(s["dirs"])
-                st = stack
-                if lab is not None:
-                    routes.setdefault(lab, []).append(set(stack))
-                    st = stack + [lab]
+                st = enter(lab, stack, keys) if lab is not None else stack
                 f = frags.get(s["n"])
-                if f is not None and (s["n"], tuple(st)) not in seen:
-                    walk(f["sel"], st, seen | {(s["n"], tuple(st))})
+                key = (s["n"], tuple(l for l, _k in st), tuple(keys))
+                if f is not None and key not in seen and len(keys) < 12:
+                    walk(f["sel"], st, keys, seen | {key})
 
     for d in tree["defs"]:
         if d["k"] == "op":
-            walk(d["sel"], [], frozenset())
-    # a label is *necessarily* nested in those labels that enclose it on every route
-    return {lab: set.intersection(*rs) if rs else set() for lab, rs in routes.items()}
+            walk(d["sel"], [], [], frozenset())
+    out = {}
+    for lab, rs in routes.items():
+        always = set.intersection(*(set(r) for r in rs)) if rs else set()
+        out[lab] = {e: {r[e] for r in rs} for e in always}
+    return out
 
 
 class Assembler:
@@ -95,8 +99,14 @@ class Assembler:
             if me is None:
                 continue
             for qid, q in self.pending.items():
-                if qid != pid and q["label"] is not None and q["label"] in self.nesting.get(me["label"], ()) \
-                        and me["path"][:len(q["path"])] == q["path"]:
+                if qid == pid or q["label"] is None or me["path"][:len(q["path"])] != q["path"]:
+                    continue
+                rels = self.nesting.get(me["label"], {}).get(q["label"])
+                rel = tuple(k for k in me["path"][len(q["path"]):] if not isinstance(k, int))
+                # one label can have several instances at one path (a named fragment spread on two routes):
+                # the announcement is justified as soon as one of them has completed
+                justified = any(d["label"] == q["label"] and d["path"] == q["path"] for d in self.completed_ok)
+                if rels is not None and rel in rels and not justified:
                     self.problem("nested-announced-while-parent-pending",
                                  f"{me['label']!r} at {me['path']} announced while enclosing {q['label']!r} "
                                  f"(id {qid}) at {q['path']} is still pending")
